@@ -17,13 +17,30 @@ import (
 	"reflect"
 	"sort"
 	"time"
+
+	"github.com/tochemey/goakt/v4/internal/types"
+	"github.com/tochemey/goakt/v4/remote"
 )
+
+// vmProfile is a user-defined struct registered for CBOR serialization the way remote.WithSerializers
+// does it: the serializer's domain is "built-in primitives, proto messages and registered structs".
+// Its wire name ("crdt.vmprofile") is package-qualified. Registered structs decode to a fresh pointer,
+// so they are used as register values (LWWRegister, MVRegister), never as set elements / map keys.
+type vmProfile struct {
+	Name string
+	Age  int
+}
+
+func init() {
+	types.RegisterSerializerType(new(vmProfile), remote.NewCBORSerializer())
+}
 
 // node names: index order == lexicographic order of the strings (LWW tie-break is by string order).
 var vmNodes = []string{"", "a", "aa", "ab", "b", "n1", "n10", "n2"}
 
 // element / register values. 0 is the nil interface.
-var vmVals = []any{nil, "x", "y", "", int(1), int64(1), uint64(1), true, float64(1.5), int(0), "z", int32(-7)}
+var vmVals = []any{nil, "x", "y", "", int(1), int64(1), uint64(1), true, float64(1.5), int(0), "z", int32(-7),
+	&vmProfile{Name: "alice", Age: 30}, &vmProfile{Name: "bob", Age: -7}}
 
 func vmValIndex(v any) int64 {
 	for i, x := range vmVals {
@@ -33,7 +50,16 @@ func vmValIndex(v any) int64 {
 			}
 			continue
 		}
-		if reflect.TypeOf(x) == reflect.TypeOf(v) && x == v {
+		if reflect.TypeOf(x) != reflect.TypeOf(v) {
+			continue
+		}
+		if px, ok := x.(*vmProfile); ok { // registered structs travel as pointers: compare the pointees
+			if pv := v.(*vmProfile); px != nil && pv != nil && *px == *pv {
+				return int64(i)
+			}
+			continue
+		}
+		if x == v {
 			return int64(i)
 		}
 	}
